@@ -62,15 +62,21 @@ CLAIMED = {'C01': {'design_ref': 'DESIGN.md §5 C01',
                  'propext/Classical.choice/Quot.sound), the translator of protocol constants, the simulation harness '
                  '(fake UDP sockets, virtual clock, real threads) and the compiled model driver. Modelled rather '
                  'than verified: CPython and stdlib pieces, UDP delivery (script order stands for network order). '
-                 "Partial: the HTTP half rests on http.server's parser (not modelled); foreign non-interference is "
-                 "proved as 'deadline unchanged' (C02 automaton) rather than as a trace-equality theorem. The HTTP "
+                 "Partial: the HTTP half rests on http.server's parser (not modelled). Foreign non-interference is a "
+                 'trace-equality theorem for whole transfers (foreign_noninterference) under the script condition '
+                 'foreignOK: foreign datagrams cost no CPU time, and one with a non-zero delay is not followed by '
+                 "the script event 'silence' (whose meaning is relative to the current try; the unconditional "
+                 'statement is refuted in Lean, foreign_noninterference_needs_side_condition; every arrival pattern '
+                 'has a script that meets the condition). The HTTP '
                  "request parser is not modelled; clients that reset the connection (not 'client-controlled bytes') "
                  'are outside the default stream.',
          'technique': 'Lean 4 proof (total decoders, trace automaton accepted for all scripts) + differential '
                       'correspondence incl. exhaustive short datagrams',
          'text': 'Lean theorems (TFTP half): the decoders are total; any ERROR packet (any code, any length) is a '
                  'peer error after which nothing is sent; an invalid packet is the last thing received and is '
-                 'answered by exactly one well-formed ERROR; foreign peers get ERROR 5 only; no exception record '
+                 'answered by exactly one well-formed ERROR; foreign peers get ERROR 5 only, and the rest of the trace '
+                 '(everything to and from the client, timeouts, closes, with time stamps) equals the run on the script '
+                 'without the foreign datagrams (foreign_noninterference); no exception record '
                  'unless the handler/stream raised (c09Check accepted for every script); the request port answers '
                  'every datagram with nothing, one well-formed ERROR, or a transfer; RRQ decoding round-trips and is '
                  'sound w.r.t. the RFC 1350/2347 shape. Correspondence: exhaustive/grammar/mutated datagrams on the '
